@@ -49,8 +49,10 @@ META = dict(
             "estimator only checked in the forward direction); remove_polymer_non_connected_to_x_max_middle; what "
             "connect_holes_and_structures keeps beyond feasibility (the statement only demands a feasible output, e.g. the "
             "empty design it returns for every one-layer input satisfies it)",
-    bounds=dict(quick=dict(shapes="remove/air: 3x3x3 4x4x3 3x3x1 3x3x2 3x3x4 + raising shapes 4x4x2 2x4x3 4x4x1; connect: 3x3x2 3x3x3 2x2x3; modules 3x3x3"),
-                thorough=dict(shapes="quick + remove/air 5x5x3 4x4x4 7x7x1 7x7x3 5x3x3; connect 3x3x4 4x3x3 4x4x3")),
+    bounds=dict(quick=dict(shapes="remove: 3x3x3 4x4x3 3x3x1 3x3x2 (+ raising 4x4x2, 2x4x3); air: 3x3x3 4x4x3 3x3x1 (+ raising 4x4x1); "
+                                  "connect: 3x3x2 3x3x3 (+ raising 4x4x2); modules 3x3x3", oracle_iterations="#cells - 1"),
+                thorough=dict(shapes="quick + remove 3x3x4 5x5x3 4x4x4 5x3x3 7x7x1 7x7x3; air 5x5x3 4x4x4; connect 2x2x3 3x3x4 4x3x3 4x4x3 "
+                                     "(connect 4x4x4 needs 20 min, 5x5x3 > 50 min: not listed)", oracle_iterations="#cells - 1")),
     timeout_ms=dict(quick=60000, thorough=400000),
 )
 
@@ -61,7 +63,6 @@ def cases(tier, seed):
     q = [
         dict(name="remove-3x3x3", kind="remove", shape=(3, 3, 3)),
         dict(name="remove-4x4x3", kind="remove", shape=(4, 4, 3)),
-        dict(name="remove-3x3x4", kind="remove", shape=(3, 3, 4)),
         dict(name="remove-3x3x1-one-layer", kind="remove", shape=(3, 3, 1)),
         dict(name="remove-3x3x2-two-layer", kind="remove", shape=(3, 3, 2)),
         dict(name="remove-4x4x2-two-layer", kind="remove", shape=(4, 4, 2)),
@@ -72,15 +73,16 @@ def cases(tier, seed):
         dict(name="air-4x4x1-one-layer", kind="air", shape=(4, 4, 1)),
         dict(name="connect-3x3x2", kind="connect", shape=(3, 3, 2)),
         dict(name="connect-3x3x3", kind="connect", shape=(3, 3, 3)),
-        dict(name="connect-2x2x3", kind="connect", shape=(2, 2, 3)),
         dict(name="connect-4x4x2-two-layer", kind="connect", shape=(4, 4, 2)),
-        dict(name="module-remove-3x3x3-bg0", kind="mod_remove", shape=(3, 3, 3), bg=0),
         dict(name="module-remove-3x3x3-bg1", kind="mod_remove", shape=(3, 3, 3), bg=1),
         dict(name="module-connect-3x3x3-bg0", kind="mod_connect", shape=(3, 3, 3), bg=0),
     ]
     if tier == "quick":
         return q
     return q + [
+        dict(name="module-remove-3x3x3-bg0", kind="mod_remove", shape=(3, 3, 3), bg=0),
+        dict(name="connect-2x2x3", kind="connect", shape=(2, 2, 3)),
+        dict(name="remove-3x3x4", kind="remove", shape=(3, 3, 4)),
         dict(name="remove-5x5x3", kind="remove", shape=(5, 5, 3)),
         dict(name="remove-4x4x4", kind="remove", shape=(4, 4, 4)),
         dict(name="remove-5x3x3", kind="remove", shape=(5, 3, 3)),
@@ -91,7 +93,6 @@ def cases(tier, seed):
         dict(name="connect-3x3x4", kind="connect", shape=(3, 3, 4)),
         dict(name="connect-4x3x3", kind="connect", shape=(4, 3, 3)),
         dict(name="connect-4x4x3", kind="connect", shape=(4, 4, 3)),
-        dict(name="connect-4x4x4", kind="connect", shape=(4, 4, 4)),
         dict(name="module-connect-3x3x3-bg1", kind="mod_connect", shape=(3, 3, 3), bg=1),
     ]
 
@@ -452,7 +453,7 @@ def _flood_case(c, case, what, fn, seed, invert):
     for g in groups:
         c.prove(f"{what}:sound{_gname(g)}", _all(z3.Implies(sc.toz(o[idx]), C[idx]) for idx in g), closed, rp, key=f"{what}:keeps_unconnected")
     kdef = f"{what}:one_layer_all_removed" if (cls == "one_layer" and not invert) else None
-    for g in groups:
+    for g in (groups if kdef is None else [list(np.ndindex(*shape))]):  # one-layer designs: one obligation over all cells
         c.prove(f"{what}:near{_gname(g)}", _all(z3.Implies(sc.toz(near[idx]), sc.toz(o[idx])) for idx in g), (), rp,
                 key=kdef or f"{what}:drops_connected_within_n_steps")
     if kdef is None:
